@@ -3,7 +3,7 @@ C06 — Encryption, key agreement and sharing invert correctly; bad input is rej
 
 Specification (executable, written from the standards / original papers): Spec/Cp.lean.  Code-shaped models of the C
 functions: Model/Cp.lean.  The theorems below are the unbounded statements (every key satisfying the key equations, every
-plaintext / residue / exponent / list of shares); lemmas and proofs are in Lemmas/{Num,Rsa,Paillier,Share,Sss,Pad,PadModel}C06.lean.
+plaintext / residue / exponent / list of shares); lemmas and proofs are in Lemmas/{Num,Rsa,Paillier,Share,Sss,Pad,PadModel,OaepModel}C06.lean.
 What the theorems do NOT cover is compared with the specification on every run only (class C, listed in tools/props/c06.py):
 in particular "decryption rejects bad input" is decided by the specification's decoders — whose acceptance sets are
 characterised here (`*_sound`) — on each crafted / mutated ciphertext, it is not a theorem about the C text.
@@ -14,6 +14,7 @@ import RelicVerif.Lemmas.ShareC06
 import RelicVerif.Lemmas.SssC06
 import RelicVerif.Lemmas.PadC06
 import RelicVerif.Lemmas.PadModelC06
+import RelicVerif.Lemmas.OaepModelC06
 
 namespace Relic.Props.C06
 open Relic.Spec.Cp Relic.Model.Cp
@@ -74,16 +75,24 @@ theorem octet_string_roundtrip (b : Bytes) (n len : Nat) (h : n < 256 ^ len) :
 theorem pad_basic_model_eq_spec (k : Nat) (em : Bytes) (hk : 2 ≤ k) (hlen : em.length = k) :
     (padBasicDec (os2ip em) k).map (fun r => i2osp r.1 (k - r.2)) = basicUnpad em := PadModelC06.padBasicDec_eq k em hk hlen
 
-/-- pad_pkcs1 (RSA_DEC) is the PKCS#1 v1.5 separation WITHOUT the |PS| ≥ 8 test, restricted to non-empty messages
-    (the missing test is finding C06-2) -/
-theorem pad_pkcs1_model_eq_lax_spec (k : Nat) (em : Bytes) (hk : 3 ≤ k) (hlen : em.length = k) :
+/-- pad_pkcs1 (RSA_DEC) = EME-PKCS1-v1_5 decoding of RFC 8017 §7.2.2 (|PS| ≥ 8 included), restricted to non-empty messages
+    (the encryption side admits no empty message), for every k-octet encoded message -/
+theorem pad_pkcs1_model_eq_spec (k : Nat) (em : Bytes) (hk : 3 ≤ k) (hlen : em.length = k) :
     (padPkcs1Dec (os2ip em) k).map (fun r => i2osp r.1 (k - r.2))
-      = (PadModelC06.pkcs1UnpadLax em).bind fun m => if m.isEmpty then none else some m := PadModelC06.padPkcs1Dec_eq k em hk hlen
+      = (pkcs1Unpad em).bind fun m => if m.isEmpty then none else some m := PadModelC06.padPkcs1Dec_eq k em hk hlen
 
-/-- the standard's decoder is the lax one plus the length test; whatever the standard accepts (non-empty) pad_pkcs1 returns -/
-theorem pad_pkcs1_complete (k : Nat) (em m : Bytes) (hk : 3 ≤ k) (hlen : em.length = k) (hm : m ≠ [])
-    (h : pkcs1Unpad em = some m) :
-    (padPkcs1Dec (os2ip em) k).map (fun r => i2osp r.1 (k - r.2)) = some m := PadModelC06.padPkcs1Dec_complete k em m hk hlen hm h
+/-- accept/reject agree in both directions: the standard's decoder returns the non-empty message m iff pad_pkcs1 does -/
+theorem pad_pkcs1_accepts_iff (k : Nat) (em m : Bytes) (hk : 3 ≤ k) (hlen : em.length = k) (hm : m ≠ []) :
+    pkcs1Unpad em = some m ↔ (padPkcs1Dec (os2ip em) k).map (fun r => i2osp r.1 (k - r.2)) = some m :=
+  PadModelC06.padPkcs1Dec_complete k em m hk hlen hm
+
+/-- pad_pkcs2 (RSA_DEC) = EME-OAEP decoding of RFC 8017 §7.1.2 for every k-octet encoded message, k ≥ 2·hLen + 2: the shifts,
+    the xor of the mask as integers and the bn_size_bin search for the 01 separator decide and return what the byte-level
+    decoder does (any hash with fixed output length) -/
+theorem pad_pkcs2_model_eq_spec (H : Hash) (hout : ∀ b, (H.h b).length = H.outLen) (hpos : 0 < H.outLen) (k : Nat) (em : Bytes)
+    (hk : 2 * H.outLen + 2 ≤ k) (hlen : em.length = k) :
+    (padPkcs2Dec H (os2ip em) k).map (fun r => i2osp r.1 (k - r.2)) = oaepDecode H k em :=
+  OaepModelC06.padPkcs2Dec_eq H hout hpos k em hk hlen
 
 /-! ### Rabin -/
 
